@@ -293,7 +293,7 @@ func (e *Engine) displayMultilinePrompts() {
 	if e.line.Lines() > 1 {
 		term.MoveCursorUp(e.lineRows)
 		term.MoveCursorBackwards(term.GetWidth())
-		rows := e.prompt.MultilineColumnPrint()
+		rows := e.prompt.MultilineColumnPrint(e.startCols)
 
 		// Back to the last row of the line, wherever the column ended.
 		term.MoveCursorDown(e.lineRows - rows)
